@@ -144,8 +144,8 @@ def case_st(draw):
     # async-only callback flavours do not exist on sync entry points; compare like with like
     # (sync entry points always get plain functions; async ones get any of the async callback shapes,
     # which must all behave like the sync twin)
-    pl["sleeper_flavour"] = draw(st.sampled_from(["async", "async", "awaitable", "awaitable_obj", "sync"]))
-    pl["before_flavour"] = draw(st.sampled_from(["async", "async", "awaitable", "awaitable_obj", "sync"]))
+    pl["sleeper_flavour"] = draw(st.sampled_from(["async", "async", "awaitable", "awaitable_obj", "gen_coroutine", "sync"]))
+    pl["before_flavour"] = draw(st.sampled_from(["async", "async", "awaitable", "awaitable_obj", "gen_coroutine", "sync"]))
     case["placement"] = pl
     grp = draw(st.sampled_from(["plain"] * 6 + ["breaker"] * 3 + ["noretry"]))
     if grp != "plain":
